@@ -44,6 +44,8 @@ def strategy_case(draw):
         case["a"] = draw(st.sampled_from([0.1, 0.5, 1.0]))
     if draw(st.floats(0, 1)) < 0.25:
         case["start_R"] = draw(gen.ranks(d, 4))
+    elif routine in ("fi_uni", "fi_multi") and draw(st.integers(0, 5)) == 0:
+        case["start_is_arg"] = True      # function_interpolate(f, x, start_tens=x): the argument itself as a natural first guess
     if routine == "fi_multi" and draw(st.booleans()):
         case["fi_args"] = "tt"
     # the accuracy clause is relative, so the data scale must not matter: the user function's values are multiplied by 10^k
@@ -100,6 +102,9 @@ def _fi_multi_tt(T, ck, case, mon, start):
     sc = 10.0 ** case.get("scale10", 0)
     ck.label("scale:1e%d" % case.get("scale10", 0))
     torch.manual_seed(case["lib_seed"])
+    if case.get("start_is_arg"):
+        start = xs[1]
+        ck.label("start_is_argument")
     y = lib(lambda: T.interpolate.function_interpolate(f, xs, eps=eps, start_tens=start))
     ref = (dd[0] + 2.0 * dd[1]).reshape(N) * sc
     ck.require(mon["bad"] is None, "callback_arguments", str(mon["bad"]))
@@ -183,7 +188,13 @@ def execute(case):
             mon["evals"] += v.numel()
             return _g(case, v) * sc
         torch.manual_seed(case["lib_seed"])
+        if case.get("start_is_arg"):
+            start = x
+            ck.label("start_is_argument")
+        xsnap = [c.clone() for c in x.cores]
         y = lib(lambda: T.interpolate.function_interpolate(f, x, eps=eps, start_tens=start))
+        ck.require(len(x.cores) == len(xsnap) and all(a.shape == b.shape and torch.equal(a, b) for a, b in zip(x.cores, xsnap)),
+                   "argument_modified", "function_interpolate changed its argument tensor")
     else:
         if case.get("fi_args") == "tt":
             return _fi_multi_tt(T, ck, case, mon, start)
@@ -206,6 +217,9 @@ def execute(case):
             off = sum(100.0 * k for k in range(d))
             return _g(case, V.sum(1) - off) * sc
         torch.manual_seed(case["lib_seed"])
+        if case.get("start_is_arg"):
+            start = xs[0]
+            ck.label("start_is_argument")
         y = lib(lambda: T.interpolate.function_interpolate(f, xs, eps=eps, start_tens=start))
 
     ck.info["function_calls"] = mon["calls"]
